@@ -264,6 +264,12 @@ for (n, a, b) in [("c08_cached_agree_3_1", 3, 1), ("c08_cached_agree_2_2", 2, 2)
           desc=f"CachedVec (source length {a}, then shrunk to {b}): range folds and point reads equal the source restricted to the range; cached contents never outlive a shrunken source",
           bounds="source lengths concrete (listed), values, ranges (incl. reversed / usize::MAX) and probe indices symbolic",
           functions=["vecdb::CachedVec as ReadableVec"], stubs=[WCAP]))
+for (n, shape, q) in [("c03_raw_write_append", "2 stored + 2 pushed", True), ("c03_raw_write_trunc_only", "3 on disk, logical length 1, nothing pushed", False),
+                      ("c03_raw_write_truncate_append", "3 on disk, logical length 1, 1 pushed", True), ("c03_raw_write_noop", "2 stored, nothing to do", False)]:
+    reg(H(n, "vecdb", "C03", mem=12, timeout=900, tier="quick" if q else "thorough",
+          desc="real ReadWriteRawVec::write() (-> Region::truncate_write / truncate -> write_with fits path, real bounded copy into the file) from the concrete shape [" + shape + "] with symbolic file bytes and values: every element is on disk at HEADER_OFFSET + 4*i, region length = header + 4*len, pushed/updated empty, published stored_len = len, reads unchanged",
+          bounds="contract mode, 48-byte file, container lengths concrete (symbolic-length Vec operations exhaust memory in symbolic execution), values and file bytes symbolic",
+          functions=["vecdb::ReadWriteRawVec::write", "vecdb::ReadWriteBaseVec::write_header_if_needed", "rawdb::Region::{truncate_write,truncate,write_at}", "rawdb::Region::write_with (fits path)", "rawdb::write_to_mmap"], stubs=CMS))
 
 
 def select(prop, tier, seed=0):
